@@ -1,7 +1,11 @@
 import TbbVerif.Core.Proto
+import TbbVerif.Model.C03
 
 open TbbVerif
 
-def drivers : List (String × Proto.Driver) := []
+def drivers : List (String × Proto.Driver) := [
+  ("c03", C03.driver),
+  ("c03red", C03.rdriver)
+]
 
 def main (args : List String) : IO UInt32 := Proto.mainOf drivers args
